@@ -153,7 +153,24 @@ func (x *Exec) stmt(st *State, s ast.Stmt) *State {
 		}
 		return nil
 	case *ast.DeferStmt:
-		st.defers = append(st.defers[:len(st.defers):len(st.defers)], deferred{call: s.Call, info: x.info})
+		d := deferred{call: s.Call, info: x.info}
+		if _, isLit := ast.Unparen(s.Call.Fun).(*ast.FuncLit); !isLit {
+			d.frozen = map[ast.Expr]Val{}
+			for _, a := range s.Call.Args {
+				if t := x.typeOf(a); !isObjType(t) {
+					d.frozen[a] = x.expr(st, a)
+				}
+			}
+			if sel, ok := ast.Unparen(s.Call.Fun).(*ast.SelectorExpr); ok {
+				if _, isPkg := x.info.Uses[identOf(sel.X)].(*types.PkgName); !isPkg {
+					switch x.typeOf(sel.X).Underlying().(type) {
+					case *types.Pointer, *types.Interface:
+						d.frozen[sel.X] = x.expr(st, sel.X)
+					}
+				}
+			}
+		}
+		st.defers = append(st.defers[:len(st.defers):len(st.defers)], d)
 		return st
 	case *ast.GoStmt:
 		// arguments are evaluated now; the goroutine body is not executed (ghost spawn event)
@@ -1374,4 +1391,9 @@ func (x *Exec) rangeAbstract(st *State, s *ast.RangeStmt, label string, ls *Loop
 		x.checkInvariants(end, ls, "preserve", nil)
 	}
 	return x.mergeN(append([]*State{exit}, lc.breaks...))
+}
+
+func identOf(e ast.Expr) *ast.Ident {
+	id, _ := ast.Unparen(e).(*ast.Ident)
+	return id
 }
